@@ -283,7 +283,7 @@ func message(es []elem, batch bool) string {
 
 func main() {
 	run := report.New("C19")
-	run.SetBudget(4*60e9, 30*60e9)
+	run.SetBudget(4*60e9, 20*60e9)
 	probe := &Probe{}
 	srv := rpc.NewServer(apiKey)
 	if err := srv.RegisterName("probe", probe); err != nil {
